@@ -106,7 +106,15 @@ def case_strategy(draw, big=False):
             if k == 'report':
                 ops.append(['report'])
             elif prev and draw(st.integers(0, 3)) > 0:
-                ops.append(copy.deepcopy(draw(st.sampled_from(prev))))
+                op_ = copy.deepcopy(draw(st.sampled_from(prev)))
+                if draw(st.integers(0, 3)) == 0:
+                    # almost the same request (a fine scan): differs in the sixth digit
+                    if k == 'near':
+                        op_[1] = [x_ * (1 + 2e-6) + 1e-9 for x_ in op_[1]]
+                    else:
+                        op_[1][0] = op_[1][0] + 3e-6
+                        op_[2][0] = op_[2][0] * (1 + 2e-6) + 1e-6
+                ops.append(op_)
             elif k == 'far':
                 ops.append(['far', [gen.r6(draw(st.floats(0, 40))), gen.r6(draw(st.floats(5, 25))), draw(st.integers(1, 4))],
                             [gen.r6(draw(st.floats(0, 360))), gen.r6(draw(st.floats(10, 90))), draw(st.integers(1, 4))]])
